@@ -80,6 +80,26 @@ impl<K, V> HashMap<K, V> {
     }
 }
 
+impl<K, V> HashMap<K, V> {
+    /// Removes the element at `i`, keeping the order of the others.  Written
+    /// with adjacent swaps and a `pop` instead of `Vec::remove`: the latter is
+    /// a `memmove` whose length depends on `i`, and `i` is symbolic whenever
+    /// key equality is (CBMC's array copy with a symbolic size was what blew
+    /// up every harness that removed from a map).
+    fn take_at(&mut self, i: usize) -> (K, V) {
+        let n = self.items.len();
+        let mut j = i;
+        while j + 1 < n {
+            self.items.swap(j, j + 1);
+            j += 1;
+        }
+        match self.items.pop() {
+            Some(kv) => kv,
+            None => unreachable!(),
+        }
+    }
+}
+
 impl<K: Eq, V> HashMap<K, V> {
     fn pos<Q: ?Sized + Eq>(&self, k: &Q) -> Option<usize>
     where
@@ -147,7 +167,7 @@ impl<K: Eq, V> HashMap<K, V> {
         K: Borrow<Q>,
     {
         match self.pos(k) {
-            Some(i) => Some(self.items.remove(i).1),
+            Some(i) => Some(self.take_at(i).1),
             None => None,
         }
     }
@@ -157,7 +177,7 @@ impl<K: Eq, V> HashMap<K, V> {
         K: Borrow<Q>,
     {
         match self.pos(k) {
-            Some(i) => Some(self.items.remove(i)),
+            Some(i) => Some(self.take_at(i)),
             None => None,
         }
     }
@@ -247,7 +267,7 @@ impl<'a, K, V> OccupiedEntry<'a, K, V> {
     }
 
     pub fn remove(self) -> V {
-        self.map.items.remove(self.idx).1
+        self.map.take_at(self.idx).1
     }
 }
 
